@@ -439,7 +439,8 @@ def run_config(cfg):
             if cfg.get("retype", "cal-to-ab") == "ab-to-cal":
                 kinds.reverse()
             final_kind = kinds[1][2]
-            team = found[final_kind][1][0] + "team/"
+            # half of the configurations use a name with characters that matter in URLs ('#', '?', blank)
+            team = found[final_kind][1][0] + ("team/" if cfg.get("retype", "cal-to-ab") == "cal-to-ab" else "Te%20am%20%231%3F/")
             for n, (root, rt, kind) in enumerate(kinds):
                 if root == "C:mkcalendar":
                     st, h, b = srv.request("MKCALENDAR", team, [dav.XML_CT], dav.mkcol_body("C:mkcalendar", [("{DAV:}displayname", "Team")]))
